@@ -46,13 +46,35 @@ ASAN_ENV = {'ASAN_OPTIONS': 'detect_leaks=0:abort_on_error=0', 'UBSAN_OPTIONS': 
 
 
 # ---------------------------------------------------------------------------------- helpers
+# ranks of oversubscribed runs must yield while they wait (8 concurrent runs of up to 4 busy-polling
+# ranks each would otherwise starve one another and trip the watchdog)
+ENV_BASE = {'OMPI_MCA_mpi_yield_when_idle': '1'}
+
+
 def run_all(items, impl, wd, jobs=8, timeout=60):
-    """items: list of (tag, script text, extra env or None) -> list of Result in order"""
+    """items: list of (tag, script text, extra env or None) -> list of Result in order.
+    A run that trips the watchdog is repeated once on its own with a longer limit: only a hang that
+    persists on an otherwise idle harness is an observation."""
     def one(x):
         tag, text, env = x
-        return S.run_script(text, impl, None, wd, tag, timeout=timeout, env=env, want_model=False)
+        e = dict(ENV_BASE); e.update(env or {})
+        return S.run_script(text, impl, None, wd, tag, timeout=timeout, env=e, want_model=False)
     with cf.ThreadPoolExecutor(max_workers=jobs) as ex:
-        return list(ex.map(one, items))
+        res = list(ex.map(one, items))
+    for i, r in enumerate(res):
+        if r.hang or r.crash:
+            tag, text, env = items[i]
+            e = dict(ENV_BASE); e.update(env or {})
+            r2 = S.run_script(text, impl, None, wd, tag + '_again', timeout=4 * timeout, env=e, want_model=False)
+            if not (r2.hang or r2.crash):
+                # did not persist: the machine was overloaded (mpiexec start-up failures, watchdog);
+                # recorded in the evidence, not a verdict
+                TRANSIENT.append(dict(tag=tag, first='hang' if r.hang else 'crash', output=(r.stdout or '')[:500]))
+            res[i] = r2
+    return res
+
+
+TRANSIENT = []
 
 
 def coq_eval(wd, body, tag, timeout=600):
@@ -292,14 +314,14 @@ def info_cases(ctx, info_exe, wd, stats, n):
         vs = ','.join('%s:%d:%s' % (v.name, v.xtype, '.'.join(map(str, v.dimids))) for v in p.s.vars) or '-'
         args = [os.path.join(d, 'f.nc'), str(p.s.fmt), dims, vs, ','.join(map(str, c['ea'])) if c['ea'] else '-']
         args += ['%s=%s' % kv for kv in c['user']]
-        env = {}
+        env = dict(ENV_BASE)
         if c['envs'] is not None: env['PNETCDF_HINTS'] = c['envs']
         if c['hook'] is not None: env['PNETCDF_VERIF_HDR_CHUNK'] = c['hook']
         if c['safe'] is not None: env['PNETCDF_SAFE_MODE'] = c['safe']
         if c['np'] == 1:
             e = dict(os.environ); e.update(env)
-            return C.sh([info_exe] + args, env=e, timeout=60)
-        return C.mpirun(c['np'], info_exe, args, env=env, timeout=60)
+            return C.sh([info_exe] + args, env=e, timeout=120)
+        return C.mpirun(c['np'], info_exe, args, env=env, timeout=120)
     with cf.ThreadPoolExecutor(max_workers=8) as ex:
         outs = list(ex.map(run_one, range(len(cases))))
     body = ''
@@ -324,6 +346,14 @@ def info_cases(ctx, info_exe, wd, stats, n):
         if v is None:
             bad.append((c, 'model produced nothing', pout)); continue
         nums_open, nums_end, lay = v
+        nullflag = (res.get(100000 + ix) or [[0]])[0][0]
+        if nullflag == 1:
+            # the model says combine_env_hints calls MPI_Info_set(key, NULL): the library aborts
+            # there (reported separately under PNETCDF_HINTS:empty-value:abort)
+            stats['info_null_value_cases'] = stats.get('info_null_value_cases', 0) + 1
+            if 'D done' in pout and prc == 0:
+                bad.append((c, 'model: MPI_Info_set with a NULL value, library: completes', pout))
+            continue
         rep = {'create': {}, 'enddef': {}, 'open': {}}
         L = {}
         st = {}
@@ -651,6 +681,7 @@ def run(ctx):
                        'executed and compared (>= 3 logical accesses); plus c10_info cases (odd hint strings), aggregation model '
                        'cases and sanitizer runs')
     stats['programs'] = len(progs)
+    stats['transient_harness_failures'] = TRANSIENT[:10]
     ctx.cov['distribution'] = stats
     ctx.cov['traces_validated_against_impl'] = stats['runs'] + stats['info_cases'] + stats['aggr_cases']
     if not proof_ok and not ctx.violations:
